@@ -25,7 +25,7 @@ RULE = ("domain A: grammars built to be LL(1) as written (alternatives start wit
         " Part any_token_except: three conflict-free shapes built on AnyTokenExcept (a ProdSequence of it in front of ';', two of it in "
         "front of ';', nested brackets around it), 0-4 excluded terminals out of all 17, skip_tokens left at the default or given explicitly "
         "(SPACE+COMMENT / SPACE / none / COMMENT / with NUM or WORD and + skipped as well), so that blank and comment tokens are ordinary "
-        "terminals in some configurations; membership by a closed-form rule on the tokens that reach the parser; non-trivial = members and non-members tested.")
+        "terminals in some configurations; membership by a closed-form rule on the tokens that reach the parser; non-trivial = members and non-members tested. Part templates_nullable_tail (exhaustive): ProdSequence (closed by brackets / open to the end of input / two sequences around ';'), ListProds (brackets with and without final delimiter, bracket-less) and MapProds whose element ends in an optional token, optional alternative first or last, declared top-down / bottom-up; the language is a regular expression over token codes and every token string up to length 5-6 is parsed (a quarter of the longest non-members).")
 ASSUMPTIONS = [
     "domain F (part of A): hand-shaped LL(1) patterns where exact FOLLOW sets matter (nullable symbol followed by a nullable symbol that has another follower elsewhere), with generated terminals, orders and wrappers",
     "membership oracle = fixpoint chart recogniser over the user grammar (vlib/grammar.py)",
@@ -551,10 +551,110 @@ def st_ate_case(draw):
             "bottomup": draw(st.booleans())}
 
 
+# ---------------------------------------------------------------------------
+# templates whose items end in a nullable part: FOLLOW of the item comes from the template's own productions
+# ---------------------------------------------------------------------------
+
+def evaluate_tmpl(case):
+    """conflict-free grammars built on ProdSequence / ListProds / MapProds whose element ends in an optional token; the language
+    has a closed form (a regular expression over one-letter token codes); every token string up to length 6 is tested"""
+    import re
+    import ak.llparser as L
+    tokcfg, _names = gk.tok_config(True, True)
+    shape = case["shape"]
+    code = {"WORD": "w", "NUM": "n", "+": "p", ",": "c", ";": "s", "(": "l", ")": "r", "[": "L", "]": "R", "{": "k", "}": "K",
+            ":": "d"}
+    lex = {"WORD": "ab", "NUM": "7"}
+    opt_first = case.get("opt_first")
+
+    def make():
+        opt = [(), ("NUM",)] if opt_first else [("NUM",), ()]
+        if shape == "seq_closed":
+            return {"E": [("(", "S", ")")], "S": L.ProdSequence("EL"), "EL": [("WORD", "OPT")], "OPT": opt}, "l(wn?)*r", "wnlr"
+        if shape == "seq_open":
+            return {"E": [("S",)], "S": L.ProdSequence("EL"), "EL": [("WORD", "OPT")], "OPT": opt}, "(wn?)*", "wn"
+        if shape == "seq_two":
+            return ({"E": [("S", ";", "T")], "S": L.ProdSequence("EL"), "T": L.ProdSequence("EL", "+"), "EL": [("WORD", "OPT")],
+                     "OPT": opt}, "(wn?)*s(wn?|p)*", "wnsp")
+        if shape == "list":
+            return ({"E": [("LST", ";")], "LST": L.ListProds("[", "EL", ",", "]", allow_final_delimiter=case["final"]),
+                     "EL": [("WORD", "OPT")], "OPT": opt},
+                    "L(wn?(cwn?)*%s)?Rs" % ("c?" if case["final"] else ""), "wncLRs")
+        if shape == "list_nobr":
+            return ({"E": [("LST", ";")], "LST": L.ListProds(None, "EL", ",", None), "EL": [("WORD", "OPT")], "OPT": opt},
+                    "(wn?(cwn?)*)?s", "wncs")
+        return ({"E": [("MAP", ";")], "MAP": L.MapProds("{", "WORD", ":", "VAL", ",", "}", allow_final_delimiter=case["final"]),
+                 "VAL": [("WORD", "OPT")], "OPT": opt},
+                "k(wdwn?(cwdwn?)*%s)?Ks" % ("c?" if case["final"] else ""), "wndckKs")
+    f = []
+    classes = {"template_" + shape}
+    evals = members = nonmembers = 0
+    for smart in (True, False):
+        prods, rx, alphabet = make()
+        if case.get("bottomup"):
+            prods = {k: prods[k] for k in reversed(list(prods))}
+        inv = {v: k for k, v in code.items()}
+        try:
+            parser = L.LLParser(gk.TOKENIZER, productions=prods, start_symbol_name="E", smart_factorization=smart, **tokcfg)
+        except Exception as e:   # noqa
+            f.append(("constructor_raises_" + type(e).__name__, f"template shape={shape} case={case!r}: {str(e)[-200:]}"))
+            continue
+        if parser.is_ambiguous():
+            classes.add("parser_reports_conflicts")
+            continue
+        classes.add("conflict_free_smart" if smart else "conflict_free_plain")
+        rxc = re.compile(rx)
+        maxlen = case["maxlen"]
+        for n in range(maxlen + 1):
+            for tup in itertools.product(alphabet, repeat=n):
+                word = "".join(tup)
+                m = rxc.fullmatch(word) is not None
+                if not m and n == maxlen and n > 4 and (h64_small(word) % 4):
+                    continue          # a quarter of the longest non-members is enough
+                text = " ".join(lex.get(inv[ch], inv[ch]) for ch in word)
+                kind, res, _st = parse_guarded(L, parser, text, n + 2, do_cleanup=False)
+                evals += 1
+                members += m
+                nonmembers += not m
+                ctx = f"smart_factorization={smart} template shape={shape} options={ {k: v for k, v in case.items() if k != 'maxlen'}!r} text={text!r}"
+                if kind == "tree" and not m:
+                    f.append(("non_sentence_accepted", ctx))
+                elif kind == "parsing_error" and m:
+                    f.append(("sentence_rejected", ctx + f": {str(res)[:160]}"))
+                elif kind == "diverged":
+                    f.append(("parse_diverges", ctx + f": {res}"))
+                elif kind in ("exception", "lexical_error"):
+                    f.append(("non_sentence_raises_%s" % (type(res).__name__ if kind == "exception" else "LexicalError"),
+                              ctx + f": {res}"))
+                if len(f) > 3:
+                    break
+            if len(f) > 3:
+                break
+        if len(f) > 3:
+            break
+    return Outcome(members > 0 and nonmembers > 0, sorted(classes), f[:4], evals=evals)
+
+
+def h64_small(word):
+    from vlib.core import h64
+    return h64(word)
+
+
+def tmpl_cases():
+    for shape in ("seq_closed", "seq_open", "seq_two", "list", "list_nobr", "map"):
+        for final in ((True, False) if shape in ("list", "map") else (None,)):
+            for opt_first in (False, True):
+                for bottomup in (False, True):
+                    yield {"shape": shape, "final": final, "opt_first": opt_first, "bottomup": bottomup,
+                           "maxlen": 6 if len(shape) and shape in ("seq_closed", "seq_open", "seq_two", "list_nobr") else 5 if shape == "list" else 6}
+
+
 def parts(tier):
     k = 1 if tier == "quick" else 25
     return [Part("grammars", evaluate, strategy=st_case, examples=3200 * k),
-            Part("any_token_except", evaluate_ate, strategy=st_ate_case, examples=1200 * k)]
+            Part("any_token_except", evaluate_ate, strategy=st_ate_case, examples=1200 * k),
+            Part("templates_nullable_tail", evaluate_tmpl, enumerate=tmpl_cases, exhaustive=True,
+                 note="ProdSequence / ListProds / MapProds whose element ends in an optional token; all token strings up to length 5-6")]
 
 
 TECHNIQUE = "differential property-based testing (Hypothesis): parser vs independent chart recogniser and own LL(1) predictive parser; exhaustive enumeration of all short token strings per generated grammar; closed-form membership for AnyTokenExcept shapes under explicit skip_tokens"
